@@ -25,7 +25,8 @@ def st_case(draw, kinds=("translation", "octahedral", "permutation", "oct+trans+
             levels=(0, 1)):
     model = draw(G.st_model(families=families or ("sl", "nldf", "nldf", "sdmx", "nldf+sdmx"), max_kernels=1))
     mol = draw(G.st_mol(min_atoms=2, max_atoms=3 if model["nldf"] is None else 2, max_elec=18, levels=levels,
-                        bases=("sto-3g", "6-31g", "6-31g*") if model["nldf"] is None else ("sto-3g", "6-31g")))
+                        bases=(("sto-3g", "6-31g", "6-31g*", "cc-pvdz") if model["sdmx"] else ("sto-3g", "6-31g", "6-31g*"))
+                        if model["nldf"] is None else ("sto-3g", "6-31g")))
     kind = draw(st.sampled_from(list(kinds)))
     natm = len(mol["atoms"])
     motion = {"kind": kind, "oct": draw(st.integers(1, 47)), "t": [draw(st.floats(-5, 5)) for _ in range(3)],
